@@ -3,6 +3,7 @@
 From Coq Require Import ZArith List Bool.
 From HV Require Import Prelude.Py Prelude.State Prelude.Utf8 Spec.DynTable Spec.SDecoder.
 From HV Require Import Model.Data Model.Table Model.Decoder Model.Encoder Model.Rel Model.RelEnc.
+From HV Require Import Model.Histories.
 From HV Require Import Proofs.Table Proofs.DecoderRefine Proofs.EncoderMeaning Proofs.Lockstep.
 Import ListNotations.
 Open Scope Z_scope.
@@ -33,30 +34,7 @@ Proof. intros e d i H; rewrite H; reflexivity. Qed.
 (** Every history from fresh objects: any table-size settings between blocks (0, the same
     value twice, back to the previous value, above the default when the decoder permits it),
     any blocks; after EACH block the two tables are equal. *)
-Fixpoint in_lockstep (d : decoder) (e : encoder) (ops : list (eop * bool)) : Prop :=
-  match ops with
-  | [] => True
-  | (ESetSize v, _) :: r => in_lockstep d (snd (estep e (ESetSize v))) r
-  | (EEncode hs h, raw) :: r =>
-      match estep e (EEncode hs h) with
-      | (Ok w, e') =>
-          match Decoder_decode d w raw with
-          | (Ok hs', d') =>
-              map nv_of_header hs' = map nv_of_field hs /\
-              d'.(d_tab).(entries) = e'.(e_tab).(entries) /\
-              d'.(d_tab).(maxsize) = e'.(e_tab).(maxsize) /\ in_lockstep d' e' r
-          | (Err _, _) => False
-          end
-      | (Err _, _) => False
-      end
-  end.
-Definition pop_ok (Lim LL : Z) (o : eop * bool) : Prop :=
-  match o with
-  | (ESetSize v, _) => 0 <= v <= Lim
-  | (EEncode hs _, raw) =>
-      Forall field_sane hs /\ fields_size hs <= LL /\
-      (raw = false -> Forall (fun f => utf8_valid (fst (fst f)) = true /\ utf8_valid (snd (fst f)) = true) hs)
-  end.
+(** [in_lockstep], [pop_ok]: Model/Histories.v *)
 Theorem C10_every_history : forall Lim LL ops, 4096 <= Lim < BIG -> Z.abs LL < 10 ^ 4300 ->
   Forall (pop_ok Lim LL) ops ->
   in_lockstep (set_d_max_allowed Lim (Decoder_init LL)) Encoder_init ops.
